@@ -7,6 +7,8 @@ api_call wrappers, handler classes, the running routing table) + (C, exhaustive)
 token} x flag sets, API function bodies replaced by recording stubs (the `func` cell of each wrapper closure).
 Each observed outcome is compared in Coq (vm_compute) with the model on the regenerated tables (tie) and with the
 hand-written specification `required_spec` (oracle -> violations with the concrete request as replay).
+One function is additionally run with its REAL body: post_slave_device_events authenticates inside the function (wrapper
+level none); registered slave objects with recorder methods, 15 kinds of credential, compared with Events.v / Spec.v.
 """
 import asyncio
 import glob
@@ -44,8 +46,10 @@ ASSUMPTIONS = [
     '(an empty admin password makes every unauthenticated request admin, by design)',
     'C09_enforced is stated for well-formed requests (JSON content type on POST/PATCH/PUT); a malformed one is answered 400 '
     'before the level check and never runs the body (C09_no_run_below_level has no such premise)',
-    'POST /devices/{name}/events is level none at the wrapper by specification; its own token check is inside the function '
-    'body, which the harness replaces by a stub, so that check is not exercised here',
+    'POST /devices/{name}/events is level none at the wrapper; its own authentication runs with the REAL function body '
+    'against registered slave objects whose handle_event/save/update_last_sync/schedule_provisioning_and_update are '
+    'recorders (everything after the authentication is what is replaced); the facts about each presented credential '
+    '(origin, key, freshness) are known to the harness by construction of the header; PyJWT signature checking is trusted',
     'setup mode off (NotFoundHandler redirects GET to the frontend in setup mode instead of 404)',
     'the frontend is served from the source tree (settings.frontend.debug) because the built dist/ folder is not in the repo',
 ]
@@ -268,7 +272,10 @@ def setup_impl(ctx, res):
     levels = {None: core_api.ACCESS_LEVEL_NONE}
     for u in PASSWORDS:
         levels[u] = core_api.ACCESS_LEVEL_MAPPING[u]
-    impl = {'calls': calls, 'fresh_auth': fresh_auth, 'levels': levels, 'server': web_server, 'runtime_levels': runtime_levels,
+    events_name = 'qtoggleserver.slaves.api.funcs.devices.post_slave_device_events'
+    events_wrapper = next((w for w in wrappers.values() if '%s.%s' % (w.__module__, w.__name__) == events_name), None)
+    impl = {'calls': calls, 'fresh_auth': fresh_auth, 'events_wrapper': events_wrapper,
+            'events_original': originals.get(events_name), 'hashes': hashes, 'levels': levels, 'server': web_server, 'runtime_levels': runtime_levels,
             'n_wrappers': len(wrappers)}
     _state['impl'] = impl
     return impl
@@ -423,11 +430,14 @@ async def run_requests(impl, app, reqs):
 
     async def one(i, r):
         hd = {'X-Case': str(i)}
-        if r['user']:
+        if 'auth_header' in r:
+            if r['auth_header'] is not None:
+                hd['Authorization'] = r['auth_header']
+        elif r['user']:
             hd['Authorization'] = auth[r['user']]
         body = None
         if r['method'] in ('POST', 'PUT', 'PATCH'):
-            body = '{}'
+            body = r['body'] % i if 'body' in r else '{}'
             hd['Content-Type'] = 'application/json' if r['json'] else 'text/plain'
         async with sem:
             try:
@@ -443,7 +453,7 @@ async def run_requests(impl, app, reqs):
         ran = calls.get(str(i), [])
         if len(ran) == 1:
             name, lvl = ran[0]
-            if not name.startswith('UNCHECKED:') and lvl != impl['levels'][r['user']] and not r.get('noauth'):
+            if not name.startswith('UNCHECKED:') and not r.get('noauth') and lvl != impl['levels'][r['user']]:
                 out[i] = ('ran', name, code, 'level seen by the function %r' % lvl)
             else:
                 out[i] = ('ran', name, code)
@@ -553,6 +563,149 @@ async def run_flagset(ctx, impl, tr, flagset, res, full, explicit=None):
             res['tie_failures'].append({'note': 'request did not complete as a single decision', 'case': c})
         cases.append(c)
     return cases
+
+
+# ---------------------------------------------------------------------------------------------------------------------
+# POST /devices/{name}/events: the function's own authentication, exercised with its REAL body
+
+SLAVE_PASSWORD = 'c09-slave-admin-pw'
+EV_SLAVES = {   # name -> (constructor arguments, facts (exists, has_hash, poll, listen))
+    'c09offline': (dict(poll_interval=0, listen_enabled=False, admin_password=SLAVE_PASSWORD), (1, 1, 0, 0)),
+    'c09polled': (dict(poll_interval=5, listen_enabled=False, admin_password=SLAVE_PASSWORD), (1, 1, 1, 0)),
+    'c09listened': (dict(poll_interval=0, listen_enabled=True, admin_password=SLAVE_PASSWORD), (1, 1, 0, 1)),
+    'c09nopw': (dict(poll_interval=0, listen_enabled=False, admin_password_hash=None), (1, 0, 0, 0)),
+    'c09unknown': (None, (0, 0, 0, 0)),
+}
+
+
+def ev_credentials(impl, slave_hash):
+    """[(label, Authorization header or None, facts (present, jwt, iss, device, fresh, slave_key))]; slave_hash is the key
+    the slave's genuine token is signed with"""
+    import jwt
+    from qtoggleserver.core.api import auth as core_api_auth
+    now = int(time.time())
+    sha = lambda p: hashlib.sha256(p.encode()).hexdigest()  # noqa: E731
+
+    def tok(claims, key, alg='HS256'):
+        return 'Bearer ' + jwt.encode(claims, key=key, algorithm=alg)
+    hub = impl['fresh_auth']()
+    dev = {'iss': 'qToggle', 'ori': 'device', 'iat': now}
+    return [
+        ('no-header', None, (0, 0, 0, 0, 0, 0)),
+        ('garbage-bearer', 'Bearer abc.def.ghi', (1, 0, 0, 0, 0, 0)),
+        ('basic-auth', 'Basic dXNlcjpwYXNz', (1, 0, 0, 0, 0, 0)),
+        ('hub-consumer-viewonly', hub['viewonly'], (1, 1, 1, 0, 1, 0)),
+        ('hub-consumer-normal', hub['normal'], (1, 1, 1, 0, 1, 0)),
+        ('hub-consumer-admin', hub['admin'], (1, 1, 1, 0, 1, 0)),
+        ('device-token-wrong-key', tok(dev, sha('guess')), (1, 1, 1, 1, 1, 0)),
+        ('device-token-empty-password-key', tok(dev, sha('')), (1, 1, 1, 1, 1, 0)),
+        ('device-token-hub-admin-key', tok(dev, impl['hashes']['admin']), (1, 1, 1, 1, 1, 0)),
+        ('device-token-slave-key-hs512', tok(dev, slave_hash, 'HS512'), (1, 1, 1, 1, 1, 0)),
+        # what the master itself sends TO the slave: consumer origin, usr admin, signed with the slave's admin hash
+        ('consumer-token-slave-key', tok({'iss': 'qToggle', 'ori': 'consumer', 'usr': 'admin', 'iat': now}, slave_hash),
+         (1, 1, 1, 0, 1, 1)),
+        ('device-token-slave-key-bad-iss', tok(dict(dev, iss='other'), slave_hash), (1, 1, 0, 1, 1, 1)),
+        ('device-token-slave-key-stale', tok(dict(dev, iat=now - 100000), slave_hash), (1, 1, 1, 1, 0, 1)),
+        # genuine: built the way a device signs its webhook calls (core/webhooks.py): make_auth_header(ORIGIN_DEVICE, None, hash)
+        ('device-token-slave-key', core_api_auth.make_auth_header(core_api_auth.ORIGIN_DEVICE, None, slave_hash),
+         (1, 1, 1, 1, 1, 1)),
+        ('device-token-slave-key-with-usr', tok(dict(dev, usr='admin'), slave_hash), (1, 1, 1, 1, 1, 1)),
+    ]
+
+
+async def events_phase(ctx, impl, tr, res, flagset):
+    """-> list of event cases {slave, credential, sfacts, cfacts, observed, flags_on}"""
+    from qtoggleserver.slaves import devices as slaves_devices
+    w = impl['events_wrapper']
+    if w is None or impl['events_original'] is None:
+        res['tie_failures'].append('post_slave_device_events not found among the api_call wrappers: its own '
+                                   'authentication is not exercised')
+        return []
+    table, app = await build_app(impl, tr, flagset, ctx.workdir, res)
+    calls = impl['calls']
+    registered = []
+    stub = w.__closure__[1].cell_contents
+    slave_hash = hashlib.sha256(SLAVE_PASSWORD.encode()).hexdigest()
+    reqs, metas = [], []
+    try:
+        for name, (kw, sfacts) in EV_SLAVES.items():
+            if kw is not None:
+                slave = slaves_devices.Slave(name=name, scheme='http', host='127.0.0.1', port=9, path='/',
+                                             attrs={'name': name, 'display_name': 'c09', 'flags': []}, **kw)
+
+                async def handle_event(event, _name=name):
+                    case = str((event.get('params') or {}).get('case'))
+                    calls.setdefault(case, []).append(('slave.handle_event:' + _name, None))
+
+                async def save():
+                    return None
+                # recorders on the instance: the event must not touch anything; reaching handle_event = "served"
+                slave.handle_event = handle_event
+                slave.save = save
+                slave.update_last_sync = lambda: None
+                slave.schedule_provisioning_and_update = lambda delay: None
+                slaves_devices._slaves_by_name[name] = slave
+                registered.append(name)
+            # (PyJWT refuses an empty HMAC key, so for the slave without a password hash the "genuine" tokens are signed
+            # with the same key as for the others: nothing can verify there, s_has_hash = false decides)
+            for label, header, cfacts in ev_credentials(impl, slave_hash):
+                path = '/api/devices/%s/events' % name
+                reqs.append({'path': path, 'method': 'POST', 'user': None, 'json': True, 'noauth': True,
+                             'auth_header': header, 'body': '{"type": "c09-probe", "params": {"case": %d}}'})
+                metas.append({'flags_on': sorted(flagset), 'path': path, 'method': 'POST', 'slave': name,
+                              'credential': label, 'sfacts': sfacts, 'cfacts': cfacts})
+        w.__closure__[1].cell_contents = impl['events_original']   # the real body, for this phase only
+        outs = await run_requests(impl, app, reqs)
+    finally:
+        w.__closure__[1].cell_contents = stub
+        for name in registered:
+            slaves_devices._slaves_by_name.pop(name, None)
+    for m, o in zip(metas, outs):
+        m['observed'] = o
+        if o[0] == 'err':
+            res['tie_failures'].append({'note': 'slave events request did not complete', 'case': m})
+    return metas
+
+
+def evaluate_events(ctx, res, cases):
+    if not cases:
+        return 0
+    b = coq.boolean
+    text = 'Definition evcases : list evcase := [\n%s\n].\n' % ';\n'.join(
+        ' (mk_slave %s, mk_cred %s, %s)' % (' '.join(b(x) for x in c['sfacts']), ' '.join(b(x) for x in c['cfacts']),
+                                           '(ORan "handle_event")' if c['observed'][0] == 'ran' else
+                                           '(OStatus %d)' % (c['observed'][1] if c['observed'][0] == 'status' else -1))
+        for c in cases)
+    if ctx.model_ok:
+        evals, hdr = ['bad_events_model evcases', 'bad_events_spec evcases'], HEADER
+    else:
+        evals, hdr = ['bad_events_spec evcases'], HEADER.replace('C09.Run', 'C09.SpecRun')
+    (rc, lists, err), = coq.eval_shards(ctx.workdir, 'c09events_%d' % _state.get('round', 0), hdr, [text], evals)
+    if rc != 0 or len(lists) != len(evals):
+        res['tie_failures'].append('coqc failed on the slave events cases: %s' % err[-600:])
+        return len(cases)
+    bad_model, bad_spec = (lists if ctx.model_ok else ([], lists[0]))
+    show = lambda c: {k: c[k] for k in ('flags_on', 'path', 'method', 'slave', 'credential', 'observed')}  # noqa: E731
+    for i in bad_model:
+        res['tie_failures'].append({'note': 'model of post_slave_device_events differs from the real body', 'case': show(cases[i])})
+    for i in bad_spec:
+        c = cases[i]
+        exists, has_hash, poll, listen = c['sfacts']
+        verifies = all(c['cfacts']) and has_hash
+        expected = ('404 (no such slave)' if not exists else '401, event not applied' if not verifies else
+                    '400 (slave is polled / listened to)' if poll or listen else 'served (event handed to the slave)')
+        o = c['observed']
+        res['violations'].append({
+            'key': {'kind': 'slave-events-authentication', 'slave': c['slave'], 'credential': c['credential']},
+            'what': 'POST %s with credential "%s" %s; the specification says: %s' % (
+                c['path'], c['credential'],
+                'was served: the event reached the slave object' if o[0] == 'ran' else 'was answered %s' % (o[1],), expected),
+            'case': {'flags_on': c['flags_on'], 'path': c['path'], 'method': 'POST', 'slave': c['slave'],
+                     'credential': c['credential'], 'phase': 'slave-events (real function body, registered slave objects)'},
+            'expected': expected,
+            'observed': list(o),
+        })
+    return len(cases)
 
 
 def flag_sets(tr, defaults, mode, rng):
@@ -717,10 +870,24 @@ def run(ctx, res, mode):
         for i, fs in enumerate([] if ctx.replay else sets):
             full = (i == 0) or mode != 'quick'
             groups.append((fs, await run_flagset(ctx, impl, tr, fs, res, full)))
+        # the slave events endpoint with its real body (always: 75 requests), slaves enabled
+        ev_sets = [frozenset(sets[0] | {'settings.slaves.enabled'})]
+        if mode != 'quick':
+            ev_sets.append(frozenset(tr['flags']))
+        for fs in ev_sets:
+            evcases.extend(await events_phase(ctx, impl, tr, res, fs))
+    evcases = []
     asyncio.run(go())
     t_impl = time.time() - t0
     n = evaluate(ctx, res, groups)
+    n += evaluate_events(ctx, res, evcases)
     res['evaluations'] += n
+    res['distribution']['slave_events_cases'] = res['distribution'].get('slave_events_cases', 0) + len(evcases)
+    res['distribution']['slave_events_served'] = sum(1 for c in evcases if c['observed'][0] == 'ran')
+    for c in evcases:
+        if c['credential'] in ('device-token-slave-key', 'hub-consumer-admin') and c['slave'] == 'c09offline' \
+                and sum(1 for x in res['samples'] if 'credential' in x) < 2:
+            res['samples'].insert(0, {k: c[k] for k in ('flags_on', 'path', 'slave', 'credential', 'observed')})
 
     # measured coverage
     dist = res['distribution']
@@ -798,7 +965,11 @@ def check(ctx, res):
         'view-only, normal, admin JWT}; API bodies stubbed. Plus a routing sweep (real router find_handler vs model) over '
         'all flag pairs (quick) / all 2^13 flag sets (thorough: exhaustive=true refers to this sweep and to the '
         'route x method x level enumeration under each visited flag set). distinct = distinct (flags, path, method, level, '
-        'json); non-trivial = the request reached the level decision of an API function (body ran, or 401/403)'
+        'json); non-trivial = the request reached the level decision of an API function (body ran, or 401/403). Plus the '
+        'slave events endpoint with its real body: 5 slaves (permanently offline, polled, listened to, without password, '
+        'unknown name) x 15 credentials (none, garbage, basic, hub consumer tokens of the three levels, device tokens with '
+        'wrong / empty-password / hub-admin key, HS512, consumer-origin token with the slave key, bad iss, stale iat, genuine '
+        'device token made by make_auth_header, genuine with usr)'
     )
     run(ctx, res, 'thorough' if ctx.tier == 'thorough' else 'quick')
 
@@ -814,7 +985,8 @@ LEVEL_TEXT = (
     'finite check that every method of every handler of every routing entry names a function whose level equals the '
     'hand-written specification required_spec(route, method); hence for every flag assignment, route, method and level a '
     'request is served iff its level is at least the specified one, a lower one gets 401/403 and the body does not run, and '
-    'a path shape with no enabled route gets 404. The real tornado application is driven exhaustively (every URLSpec x 7 '
+    'a path shape with no enabled route gets 404; the slave event push (wrapper level none) serves iff the presented token is a '
+    'fresh device-origin token verifying under the slave\'s admin hash, else 401, unknown slave 404. The real tornado application is driven exhaustively (every URLSpec x 7 '
     'methods x 4 caller levels x flag sets, bodies stubbed) and compared in Coq with the model and with the specification.'
 )
 LEVEL_NOTE = (
@@ -822,7 +994,8 @@ LEVEL_NOTE = (
     'and the running routing table on every run); the harness (stubbing through the closure cell, loopback HTTP, JWT '
     'headers made by the repo\'s own make_auth_header). Paths are abstracted to URL shapes; tornado routing/method dispatch, '
     'PyJWT and APIHandler.prepare\'s header parsing (C10) are modelled/tied by the correspondence, not verified. The slave '
-    'event push authenticates inside its body (stubbed here). No axioms (Print Assumptions: closed under the global context).'
+    'event push is run with its real body against recorder slave objects; its model is hand-written and tied by the case '
+    'files. No axioms (Print Assumptions: closed under the global context).'
 )
 TECHNIQUE = ('Coq proof (generic theorem + vm_compute finite check lifted with forallb_forall) over tables regenerated by '
              'fail-closed translators, tied by exhaustive HTTP correspondence against the real application')
